@@ -180,7 +180,14 @@ func (t *tr) preWrite(c *cell) {
 	case oGlobal:
 		t.fail("in-place write to the package-level object %s", c.hint)
 	case oPField:
-		t.fail("in-place write to %s, which belongs to a parameter: the caller-visible effect has no value-level counterpart", c.hint)
+		if !(t.destRecv && c.pidx == 0) {
+			t.fail("in-place write to %s, which belongs to a parameter: the caller-visible effect has no value-level counterpart", c.hint)
+		}
+		// a field integer of a documented destination receiver (p.X.Set(..)):
+		// assumes it is shared with no other parameter unless that parameter
+		// IS the receiver (the _aliased variant)
+		t.writes[0] = true
+		t.inplace = true
 	case oParam:
 		t.writes[c.pidx] = true
 		if t.paramWritten != c {
